@@ -13,8 +13,13 @@ inductive FVal
   | fin (q : Rat)
   deriving Repr, DecidableEq
 
-/-- ASCII characters `str.strip()`/`float()` treat as white space -/
+/-- ASCII characters `float()` strips: C `isspace` (space, \t \n \v \f \r).  NOT U+001C–U+001F, which
+    `str.strip()` does strip (see `isSpaceStr`) -/
 def isSpace (c : Char) : Bool :=
+  c.toNat = 32 || (9 ≤ c.toNat && c.toNat ≤ 13)
+
+/-- ASCII characters `str.strip()` / `str.isspace()` treat as white space -/
+def isSpaceStr (c : Char) : Bool :=
   c.toNat = 32 || (9 ≤ c.toNat && c.toNat ≤ 13) || (28 ≤ c.toNat && c.toNat ≤ 31)
 
 def isDigit (c : Char) : Bool := 48 ≤ c.toNat && c.toNat ≤ 57
@@ -22,6 +27,9 @@ def isDigit (c : Char) : Bool := 48 ≤ c.toNat && c.toNat ≤ 57
 def lower (c : Char) : Char := if 65 ≤ c.toNat ∧ c.toNat ≤ 90 then Char.ofNat (c.toNat + 32) else c
 
 def strip (s : Str) : Str := ((s.dropWhile isSpace).reverse.dropWhile isSpace).reverse
+
+/-- `str.strip()` on ASCII input -/
+def stripStr (s : Str) : Str := ((s.dropWhile isSpaceStr).reverse.dropWhile isSpaceStr).reverse
 
 /-- digits with single underscores allowed only between digits; returns (digit values, rest).
     `none` ⇔ an underscore is misplaced.  May return an empty digit list. -/
